@@ -1,6 +1,7 @@
 package chk
 
 import (
+	"sort"
 	"fmt"
 	"go/token"
 	"go/types"
@@ -836,6 +837,9 @@ func ruleLoopHandler(p *Prog, r *Report, names []string) {
 			why := ""
 			for _, sb := range stopBlocks {
 				reach := reachableFrom(sb)
+				if reach[rd.Block()] && !feasiblyReaches(sb, rd.Block()) {
+					reach = map[*ssa.BasicBlock]bool{} // only over edges a loop flag cleared on the stop edge rules out
+				}
 				if reach[rd.Block()] {
 					okStop, why = false, "after the "+kind+" returned false the reader is called again"
 				}
@@ -1079,4 +1083,90 @@ func ruleJsonEscape(p *Prog, r *Report) {
 	} else {
 		r.Bad(rule, n, "escape state of the string scanner", p.Pos(fn.Pos()), "no loop-carried variable tracks whether the current character is escaped")
 	}
+}
+
+// feasiblyReaches: target is reachable from start when boolean phis are followed with the value that flows in along the path
+// (a loop flag set to false on the stop edge makes the loop condition fail): branches on such a phi whose value on the path is a
+// constant are taken only in the feasible direction.
+func feasiblyReaches(start, target *ssa.BasicBlock) bool {
+	type st struct {
+		b    *ssa.BasicBlock
+		bphi map[*ssa.Phi]ssa.Value
+	}
+	keyOf := func(s st) string {
+		var ks []string
+		for ph, v := range s.bphi {
+			ks = append(ks, ph.Name()+"="+v.Name())
+		}
+		sort.Strings(ks)
+		return fmt.Sprintf("%d:%s", s.b.Index, strings.Join(ks, ","))
+	}
+	seen := map[string]bool{}
+	stack := []st{{start, map[*ssa.Phi]ssa.Value{}}}
+	steps := 0
+	for len(stack) > 0 {
+		cur := stack[len(stack)-1]
+		stack = stack[:len(stack)-1]
+		k := keyOf(cur)
+		if seen[k] {
+			continue
+		}
+		seen[k] = true
+		steps++
+		if steps > 20000 {
+			return true
+		}
+		if cur.b == target && cur.b != start {
+			return true
+		}
+		for si, sc := range cur.b.Succs {
+			if ifi, ok := cur.b.Instrs[len(cur.b.Instrs)-1].(*ssa.If); ok {
+				cond, taken := ifi.Cond, si == 0
+				for d := 0; d < 6; d++ {
+					ng := normGuard(guard{cond, taken})
+					ph, isPhi := ng.Cond.(*ssa.Phi)
+					if !isPhi || cur.bphi[ph] == nil {
+						cond, taken = ng.Cond, ng.Pol
+						break
+					}
+					cond, taken = cur.bphi[ph], ng.Pol
+				}
+				if bv, isC := constBool(cond); isC && bv != taken {
+					continue
+				}
+			}
+			if sc == target {
+				return true
+			}
+			nb := map[*ssa.Phi]ssa.Value{}
+			for ph, v := range cur.bphi {
+				nb[ph] = v
+			}
+			pi := -1
+			for kx, pr := range sc.Preds {
+				if pr == cur.b {
+					pi = kx
+				}
+			}
+			for _, in := range sc.Instrs {
+				ph, ok := in.(*ssa.Phi)
+				if !ok {
+					break
+				}
+				if pi >= 0 && isBoolType(ph.Type()) {
+					v := ph.Edges[pi]
+					for d := 0; d < 6; d++ {
+						q, isPhi := v.(*ssa.Phi)
+						if !isPhi || cur.bphi[q] == nil {
+							break
+						}
+						v = cur.bphi[q]
+					}
+					nb[ph] = v
+				}
+			}
+			stack = append(stack, st{sc, nb})
+		}
+	}
+	return false
 }
